@@ -126,3 +126,105 @@ func TestVerifFindRoute(t *testing.T) {
 		t.Fatal(err)
 	}
 }
+
+// TestVerifHistory: registrations and lookups interleaved on ONE router instance.
+// VERIF_IN: JSON {"orders":k,"calls":c,"histories":[[["R",endpoint,method]|["L",method,path],...],...]}
+// VERIF_OUT: JSON [[{"res":[...],"fresh":[...]} per lookup op, in order] per history]
+//
+//	res   = distinct results of that lookup in the history (history replayed on `orders` routers, `calls` calls each)
+//	fresh = distinct results of the same request on a router freshly built from the routes registered so far
+//	        (no earlier lookups)
+func TestVerifHistory(t *testing.T) {
+	b, err := os.ReadFile(os.Getenv("VERIF_IN"))
+	if err != nil {
+		t.Fatal(err)
+	}
+
+	in := struct {
+		Orders    int           `json:"orders"`
+		Calls     int           `json:"calls"`
+		Histories [][][3]string `json:"histories"`
+	}{}
+	if err := json.Unmarshal(b, &in); err != nil {
+		t.Fatal(err)
+	}
+
+	type lookOut struct {
+		Res   [][3]string `json:"res"`
+		Fresh [][3]string `json:"fresh"`
+	}
+
+	toList := func(s map[[3]string]bool) [][3]string {
+		l := [][3]string{}
+		for k := range s {
+			l = append(l, k)
+		}
+
+		sort.Slice(l, func(i, j int) bool { return fmt.Sprint(l[i]) < fmt.Sprint(l[j]) })
+
+		return l
+	}
+
+	out := [][]lookOut{}
+
+	for _, h := range in.Histories {
+		nl := 0
+
+		for _, o := range h {
+			if o[0] == "L" {
+				nl++
+			}
+		}
+
+		res := make([]map[[3]string]bool, nl)
+		fresh := make([]map[[3]string]bool, nl)
+
+		for i := range res {
+			res[i], fresh[i] = map[[3]string]bool{}, map[[3]string]bool{}
+		}
+
+		for k := 0; k < in.Orders; k++ {
+			m := NewRouter("verif-history")
+			sofar := [][3]string{}
+			li := 0
+
+			for _, o := range h {
+				if o[0] == "R" {
+					m.New(o[1], verifNop, o[2])
+					sofar = append(sofar, o)
+
+					continue
+				}
+
+				for c := 0; c < in.Calls; c++ {
+					r, status := m.FindRoute(o[1], o[2], false)
+					res[li][verifResult(r, status)] = true
+				}
+
+				f := NewRouter("verif-fresh")
+				for _, s := range sofar {
+					f.New(s[1], verifNop, s[2])
+				}
+
+				for c := 0; c < in.Calls; c++ {
+					r, status := f.FindRoute(o[1], o[2], false)
+					fresh[li][verifResult(r, status)] = true
+				}
+
+				li++
+			}
+		}
+
+		ho := []lookOut{}
+		for i := range res {
+			ho = append(ho, lookOut{Res: toList(res[i]), Fresh: toList(fresh[i])})
+		}
+
+		out = append(out, ho)
+	}
+
+	ob, _ := json.Marshal(out)
+	if err := os.WriteFile(os.Getenv("VERIF_OUT"), ob, 0o644); err != nil {
+		t.Fatal(err)
+	}
+}
